@@ -36,6 +36,7 @@ def parseRspSessions : Bytes → Nat → List (Bytes × Nat × Bytes)
 def cname : Check → String
   | .pass => "pass" | .failAuth => "auth" | .failPolicy => "policy" | .failPolicyCC => "policy-cc" | .unavailable => "unavailable"
   | .authType => "auth-type" | .badAttributes => "attributes" | .pcrChanged => "pcr-changed" | .noSession => "no-session"
+  | .failLocality => "locality" | .failPP => "physical-presence"
 def vname : Verdict → String
   | .ok => "ok" | .authMissing => "missing" | .authFail i w => s!"fail{i}-{cname w}" | .unknownEntity => "unknown-entity"
 
@@ -48,6 +49,8 @@ def rcsOf (i : Nat) : Check → List Nat
   | .authType => [0x124]
   | .badAttributes => [0x082 + 0x800 + (i + 1) * 256]
   | .pcrChanged => [0x128]
+  | .failLocality => [0x907]
+  | .failPP => [0x090 + 0x800 + (i + 1) * 256, 0x090]
   | _ => []
 
 def rspHandleBytes (cc : Nat) : Nat :=
@@ -76,6 +79,8 @@ def stepAuth (c : CS) (l : Line) : CS :=
   match parseCmd req with
   | none => mism c "request does not parse"
   | some (cmd, attr) =>
+    -- where the command arrives and whether the platform asserts physical presence (policies may restrict both)
+    let c := { c with st := { c.st with cmdLocality := (l.nat? "loc").getD 0, pp := (l.nat? "pp").getD 0 == 1 } }
     let v := authorize c.st cmd attr
     let kind := authKind c.st cmd
     let c := branch c s!"{l.str "what"}/corrupt={l.nat "corrupt"}/{kind}/model={vname v}/rc={rc}"
@@ -171,10 +176,11 @@ def polOp (l : Line) (vals : Bytes) (g : Nat) : Option PolicyOp :=
   else if cc = "17f" then some (.pcr (l.bytes "sel") vals (l.bytes "given") g)
   else if cc = "180" then some .restart
   -- the assertions that only extend the digest; what is hashed into it is assembled here from the command's parameters
-  else if cc = "16f" then some (.assert 0x16F [UInt8.ofNat (l.nat "loc")])
-  else if cc = "16e" ∨ cc = "170" ∨ cc = "190" then some (.assert (hexNat4 cc) (l.bytes "h"))
+  else if cc = "16f" then some (.locality (l.nat "loc"))
+  else if cc = "16e" then some (.cpHash (l.bytes "h"))
+  else if cc = "170" ∨ cc = "190" then some (.assert (hexNat4 cc) (l.bytes "h"))
   else if cc = "18f" then some (.assert 0x18F [UInt8.ofNat (l.nat "w")])
-  else if cc = "187" then some (.assert 0x187 [])
+  else if cc = "187" then some .physicalPresence
   else if cc = "16d" then some (.assert 0x16D (Crypto.hash Crypto.sha256 (l.bytes "operand" ++ be16 (l.nat "offset") ++ be16 (l.nat "op"))))
   else if cc = "188" then some (.assert 0x188 ((if l.nat "include" = 1 then l.bytes "obj" else []) ++ l.bytes "parent" ++ [UInt8.ofNat (l.nat "include")]))
   else if cc = "151" then some (.update 0x151 (l.bytes "name") (l.bytes "ref"))
